@@ -67,3 +67,19 @@ pub fn c05_root(names: &[String]) -> Vec<String> {
     let _ = t;
     m.keys().cloned().collect()
 }
+
+// ---- C04: a skip predicate that does not agree with the deserialisation default
+pub mod c04 {
+    use serde::{Deserialize, Serialize};
+    pub fn default_2() -> f32 {
+        2.0
+    }
+    pub fn multiplier_is_1(m: &f32) -> bool {
+        *m == 1.0
+    }
+    #[derive(Serialize, Deserialize)]
+    pub struct Doc {
+        #[serde(default = "default_2", skip_serializing_if = "multiplier_is_1")]
+        pub multiplier: f32,
+    }
+}
